@@ -152,7 +152,8 @@ def r3(R):
 
 
 @rule('C16.R5', 'loadBefore asks the base only after the changes storage '
-      'had no answer', props=['C04', 'C15'], min_instances=1)
+      'had no answer; loadSerial answers with exactly the requested '
+      'revision', props=['C04', 'C10', 'C15'], min_instances=1)
 def r5(R):
     cls = R.prog.cls(DS)
     for meth in ('loadBefore', 'loadSerial', 'getTid', 'loadBlob',
@@ -162,7 +163,18 @@ def r5(R):
         g, b, F = R.cfg(f, cls, max_depth=0)
         R.instance('DemoStorage.%s' % meth)
 
-        def edge(node, st, lab, tgt, F=F, meth=meth):
+        checked = [False]
+
+        def edge(node, st, lab, tgt, F=F, meth=meth, checked=checked,
+                 f_params=f_params):
+            if meth == 'loadSerial' and node.kind == 'test':
+                want = [p_ for p_ in f_params if p_ != 'self']
+                for x in ast.walk(node.ast):
+                    if isinstance(x, ast.Compare) and len(x.ops) == 1 and \
+                            isinstance(x.ops[0], (ast.Eq, ast.NotEq)) and \
+                            any(isinstance(y, ast.Name) and y.id == want[1]
+                                for y in (x.left, x.comparators[0])):
+                        checked[0] = True
             for op in F.ops(node):
                 if op.kind == 'call' and path_is(
                         op.path, ('self', 'changes', meth)):
@@ -202,6 +214,29 @@ def r5(R):
         R.count(stats)
         for v in vs:
             R.violation(v.node, v.message, g, v.path)
+        if meth == 'loadSerial':
+            # the exact revision: what is returned comes from a layer's
+            # loadSerial, or from a load whose tid was held against the
+            # requested serial
+            for nid in sorted(g.reachable()):
+                node = g.nodes[nid]
+                if node.kind != 'return' or node.frame.parent is not None \
+                        or node.ast.value is None:
+                    continue
+                pv = provenance(node.ast.value, node.frame, F)
+                exact = prov_has(pv, 'call', lambda p: p[-1] == 'loadSerial')
+                other = prov_has(pv, 'call', lambda p: p[-1] in (
+                    'loadBefore', 'load', 'load_current'))
+                if other and not exact and not checked[0]:
+                    R.violation(
+                        node, 'DemoStorage.loadSerial returns what a '
+                        'loadBefore/load of a layer answered without '
+                        'comparing the revision\'s tid with the requested '
+                        'serial: when that revision is gone (packed) an '
+                        'OLDER one is returned as if it were it -- conflict '
+                        'resolution then merges from a state the writer '
+                        'never saw instead of failing',
+                        key='loadSerial answers with another revision')
 
 
 @rule('C16.R6', 'operations whose answer depends on both layers are never '
